@@ -50,6 +50,11 @@ CHECKS = {
                 text="Scfg.C09.ranges_chain / ranges_cover / fromBytecode_nodup / blockRanges_strict prove, for every instruction stream and every opcode table, that the model of build_basicblocks cuts the stream into contiguous, non-overlapping, gap-free ranges. "
                      "The opcode tables are regenerated from /repo on every run and passed to the model; real FlowInfo/build_basicblocks output is compared with the model exactly and with Lean specBlocks (leaders and successors from the interpreter's own opcode metadata) on ~1 900 functions per interpreter.", ref="§7 C09",
                 note="Trusted: Lean kernel + standard axioms; dis (is_jump_target, argval); the opcode truth-class rule; successor exactness and totality are per-function on the corpus, not an a-priori theorem."),
+    "C11": dict(cat="proof", tech="Lean 4: theorem transform_refuses for all programs and any dispatcher data satisfying the decidable dispatchOK, evaluated on data regenerated from handle_ast_node/handle_function_def and the interpreter's ast classes; every unsupported class × position through the real AST2SCFG",
+                text="Scfg.C11.transform_refuses is proved by mutual structural induction over arbitrary statement trees: any unsupported statement at any depth makes the model of the transformer raise not-implemented, for ANY dispatcher data passing dispatchOK. "
+                     "The translator regenerates that data (isinstance chain, fallback arm, nested-definition guard, statement classes and MROs of the running interpreter) on every run; dispatchOK and its offender list are evaluated on it, "
+                     "and every statement class outside the supported set is placed at 9 structural positions and pushed through the real front end, whose outcome must equal the model's.", ref="§7 C11",
+                note="Trusted: Lean kernel + standard axioms; the translator's recognition of the dispatcher's shape (unrecognised arms are reported); ast.parse."),
 }
 
 NOT_YET = {}
